@@ -106,7 +106,8 @@ def parse(text):
         return None
 
 
-def check_client(c, world, case, ev_times, ev_done, submissions, quiet_points, viol, probes):
+def check_client(c, world, case, ev_times, ev_done, submissions, quiet_points, viol, probes, stored_done=None):
+    stored_done = stored_done or {}
     backend = case["backend"]
     limit = case["subscription_limit"]
     frames = c.frames
@@ -219,6 +220,44 @@ def check_client(c, world, case, ev_times, ev_done, submissions, quiet_points, v
                                          "detail": {"sub": sid, "event": (eid or "")[:8],
                                                     "preloaded": t_sub is None}})
                             break
+    # every EOSE is truthful: it ends the stored events of SOME incarnation of that id, i.e. for at
+    # least one REQ of the id delivered before it, every event that was durably stored before that
+    # REQ arrived (and stayed stored) and matches one of its filters has been sent under the id by
+    # then.  (An EOSE emitted for a cancelled query that delivered only part of its results is not.)
+    for sid, frs in by_id.items():
+        req_frs = [f for f in frs if f["msg"][0] == "REQ"]
+        for s_eose in eose_by_id.get(sid, []):
+            cands = [f for f in req_frs if f["t_deliver"] < s_eose]
+            if not cands:
+                continue
+            truthful = False
+            worst = None
+            for fr in cands:
+                filters = [f for f in fr["msg"][2:] if isinstance(f, dict) and model.wellformed_filter(f)]
+                states = world.env.states_between(fr["t_deliver"], s_eose)
+                if not states:
+                    truthful = True
+                    break
+                base = states[0]
+                owed = [i for i, e in base.items()
+                        if all(i in d for d in states)
+                        and stored_done.get(i, 0) < fr["t_deliver"]
+                        and any(model.matches(e, f, "strict") for f in filters)
+                        and "kind" in e and not model.is_ephemeral(e["kind"])]
+                sent = {eid for seq, eid in event_by_id.get(sid, []) if fr["t_deliver"] < seq < s_eose}
+                missing = [i for i in owed if i not in sent]
+                if any("limit" in f for f in filters):
+                    missing = []
+                if not missing:
+                    truthful = True
+                    break
+                worst = (fr["msg"][:3], missing[:3], len(owed))
+            if not truthful:
+                viol.append({"cls": "eose-before-stored-events", "sig": "eose-before-stored-events|%s|reqs=%d" % (
+                    backend, min(len(req_frs), 2)),
+                             "detail": {"sub": sid, "req": worst[0], "owed": worst[2],
+                                        "missing": [m[:8] for m in worst[1]]}})
+                break
     # non-string ids: each such REQ needs a NOTICE in its interval or a floating EOSE after it
     used = set()
     last_of = {}
@@ -307,7 +346,7 @@ def run(case, sim):
                     ev_times[i] = fr["t_deliver"]
                     ev_done[i] = fr["t_done"] if fr["t_done"] is not None else 10 ** 12
     for c in w.clients:
-        check_client(c, w, case, ev_times, ev_done, submissions, quiet_points, viol, probes)
+        check_client(c, w, case, ev_times, ev_done, submissions, quiet_points, viol, probes, stored_done=ev_done)
         if not c.finished:
             viol.append({"cls": "handler-stuck", "sig": "handler-stuck|" + backend, "detail": {"client": c.idx}})
     if over_limit:
